@@ -550,7 +550,7 @@ func runCase(run *lib.Run, w *world, tc tcase, idx int, r *lib.RNG) outcome {
 }
 
 func main() {
-	run := lib.Start("C20", "large transfers (downloads and uploads, plain requests and CONNECT tunnels, 1/2/4/32/64 connections sharing one listener, also a listener that expects a PROXY protocol header, chunked downloads and downloads under body logging) through listeners with read-limit / write-limit pairs from {0,1,2,4} MiB/s and low limits (2 KiB/s, 24 KiB/s, 128 KiB/s; transfers whose limiter waits last seconds are abandoned after 9 s and judged on what was delivered), each on its own proxy instance, run concurrently; clients (origin/target for uploads) record (time since before the first connect, cumulative bytes) on every read; decisive: cumulative bytes <= burst + rate*t + 64 KiB + 64 KiB per connection at every sample (sound lower bound on duration, load can only make it safer); unlimited directions must finish in under half the time throttling at the other direction's rate would need, judged against a no-limit control; payloads are offset streams compared byte for byte; distinct = (limits, direction, via, connections) signatures")
+	run := lib.Start("C20", "large transfers (downloads and uploads, plain requests and CONNECT tunnels, 1/2/4/32/64 connections sharing one listener, also a listener that expects a PROXY protocol header, chunked downloads and downloads under body logging) through listeners with read-limit / write-limit pairs from {0,1,2,4} MiB/s and low limits (2 KiB/s, 24 KiB/s, 128 KiB/s; transfers whose limiter waits last seconds are abandoned after 9 s and judged on what was delivered), each on its own proxy instance, run concurrently; clients (origin/target for uploads) record (time since before the first connect, cumulative bytes) on every read; decisive: cumulative bytes <= burst + rate*t + 64 KiB + 64 KiB per connection at every sample (sound lower bound on duration, load can only make it safer); unlimited directions must finish in under half the time throttling at the other direction's rate would need, judged against a no-limit control; payloads are offset streams compared byte for byte; single Write calls of 1000 B .. 3 MiB (on and around the 64 KiB chunk) on a ratelimit.Listener driven directly; distinct = (limits, direction, via, connections) signatures")
 	root := run.RNG()
 	w := &world{}
 	w.origin = lib.MustOrigin("origin", "127.0.0.1:0", nil, w.originHandler)
@@ -735,6 +735,7 @@ func main() {
 	}
 	w.origin.Close()
 	w.tun.Close()
+	directWrites(run, 60_000_000)
 	run.Floor("limited_transfers_checked", 13)
 	run.Floor("unlimited_transfers_checked", 1)
 	wiring.Run(run, "C20")
